@@ -199,9 +199,9 @@ def _norm0(t):
             return alts[0]
         return ('phi', tuple(alts))
     if h == 'struct':
-        return ('struct', t[1], tuple((n, norm(x)) for n, x in t[2]))
+        return ('struct', _adt_name(t[1]), tuple((n, norm(x)) for n, x in t[2]))
     if h == 'variant':
-        return ('variant', t[1], t[2], tuple(norm(x) for x in t[3]))
+        return ('variant', _adt_name(t[1]), t[2], tuple(norm(x) for x in t[3]))
     if h in ('tuple', 'array'):
         return (h, tuple(norm(x) for x in t[1]))
     if h == 'closure':
@@ -273,6 +273,17 @@ def _small_symbol(n):
     return ''.join(reversed(chars))
 
 
+_LIB = ('core::', 'std::', 'alloc::', 'soroban_sdk::', 'alloy_', 'ruint::')
+
+
+def _adt_name(n):
+    """workspace types are named by their last path segment: which module (or workspace crate) a struct / enum lives in is not
+    behaviour (a type moved to another file is the same type); library types keep their full path"""
+    if not isinstance(n, str) or '<' in n or n.startswith(_LIB) or '::' not in n:
+        return n
+    return n.rsplit('::', 1)[1]
+
+
 def _norm_const(t):
     v = t[1]
     if v.startswith('const '):
@@ -286,7 +297,7 @@ def _norm_const(t):
     # is the same value as the variant built in place
     m = re.match(r'^((?:\w+::)+[A-Z]\w*)::([A-Z]\w*)$', v)
     if m:
-        return ('variant', m.group(1), m.group(2), ())
+        return ('variant', _adt_name(m.group(1)), m.group(2), ())
     m = re.match(r'^((?:\w+::)*Option)::<.*>::None$', v)
     if m:
         return ('variant', m.group(1), 'None', ())
@@ -301,7 +312,7 @@ def _norm_const(t):
             n, x = part.split(': ', 1)
             fs.append((n.strip(), ('const', x.strip())))
         if fs:
-            return ('struct', m.group(1), tuple(fs))
+            return ('struct', _adt_name(m.group(1)), tuple(fs))
     return ('const', v) + tuple(t[2:])
 
 
